@@ -215,7 +215,7 @@ func TestC10(t *testing.T) {
 	rng := seedFor("C10")
 	n := 30000
 	if rec.Thorough() {
-		n = 400000
+		n = 2000000
 	}
 	span := uint64(maxMsC10 - minMsC10 + 1)
 	locs := []*time.Location{time.UTC, time.Local, time.FixedZone("x", 5*3600+1800), time.FixedZone("y", -11*3600)}
